@@ -17,6 +17,8 @@ Decided:
  N7 completion test wrap-safe: free-running indices only through wrapping arithmetic / equality (C03.E5) and can_pop folded
     over index pairs across the wrap (C03.E9).  N8 a blocking helper pops the token of its own add (C03.E8).
  N6 each queue is constructed with event_idx = contains(negotiated, EVENT_IDX) (C08.H3, bit 29).
+ N9 transports' notify writes the queue index into the notification register / that queue's window slot (= C10.M2 / C11.W3).
+ N10 constructors notify pre-filled queues only after DRIVER_OK (= C08.H1).
 Not decided: device-side liveness.
 """
 from .common import *
